@@ -771,6 +771,37 @@ impl World {
             self.mock_pf.clone()
         }
     }
+    /// per-block price band of vAMM `v` as the statement defines it: [1-limit, 1+limit] x the price at
+    /// the end of the previous block (read from the vAMM's raw reserve snapshots); None when the
+    /// limit is 0
+    pub fn vamm_band(&self, v: usize) -> Option<(u128, u128)> {
+        let limit = self.vcfg(v).fluctuation_limit_ratio.u128();
+        if limit == 0 {
+            return None;
+        }
+        let mut p = contract_prefix(self.vamms[v].as_str());
+        p.extend(len_prefixed(b"reserve_snapshot"));
+        let m = self.store.0.borrow();
+        let mut snaps: Vec<(u64, u128, u128, u64)> = vec![];
+        for (k, val) in m.iter() {
+            if k.starts_with(&p) && k.len() == p.len() + 8 {
+                let mut ib = [0u8; 8];
+                ib.copy_from_slice(&k[p.len()..]);
+                let j: serde_json::Value = serde_json::from_slice(val).unwrap_or_default();
+                let g = |f: &str| -> u128 { j[f].as_str().and_then(|s| s.parse().ok()).unwrap_or(0) };
+                snaps.push((u64::from_be_bytes(ib), g("quote_asset_reserve"), g("base_asset_reserve"), j["block_height"].as_u64().unwrap_or(0)));
+            }
+        }
+        drop(m);
+        snaps.sort();
+        let h = self.height();
+        let last = snaps.iter().rev().find(|s| s.3 != h).or(snaps.first())?;
+        if last.2 == 0 {
+            return None;
+        }
+        let price = last.1 * D / last.2;
+        Some((price * (D - limit) / D, price * (D + limit) / D))
+    }
     /// raw engine position records: storage key suffix -> bytes
     pub fn raw_positions(&self) -> BTreeMap<Vec<u8>, Vec<u8>> {
         let mut p = contract_prefix(self.engine.as_str());
